@@ -5,10 +5,13 @@ set -u
 P=${1:?property}; D=${2:?patch}; T=${3:-quick}
 cd /verif || exit 2
 if [ -n "$(git -C /repo status --porcelain)" ]; then echo "refusing: /repo is not clean"; exit 2; fi
+cp evidence/$P.json /tmp/seedcheck.$$.evidence 2>/dev/null
 git -C /repo apply "$D" || { echo "patch does not apply"; exit 2; }
 ./bin/check "$P" --tier "$T" > /tmp/seedcheck.$$.out 2>&1
 rc=$?
 git -C /repo checkout -- . 
+# the evidence file committed under /verif is the one of the unchanged tree
+[ -f /tmp/seedcheck.$$.evidence ] && mv /tmp/seedcheck.$$.evidence evidence/$P.json
 grep -E "^(VIOLATION|KNOWN-FINDING)" /tmp/seedcheck.$$.out | grep -v KNOWN-FINDING | head -5
 echo "exit=$rc"
 for d in $(grep -oE "replay=[^ ]+" /tmp/seedcheck.$$.out | head -2 | cut -d= -f2); do echo "--- $d"; head -c 700 "$d/why.txt"; echo; done
